@@ -119,4 +119,12 @@ META = {
         'technique': 'data-flow obligations over the ast + ownership/frame obligations (no SMT)',
         'engine': 'pyvc-own',
     },
+    'C01': {
+        'text': 'Reduced to the leaf kernel: every encode/decode pair under contract is specified against the same spec function, and '
+                'the inverse property is a lemma over the spec functions proved by induction in the same engine (two\'s complement '
+                'round trip, big-endian octets, DER length octets, bit-field read-after-append); all obligations discharged.',
+        'note': 'Not covered: containers, strings, time types, OBJECT IDENTIFIER (known defect 1: 2.40 decodes as 3.0 is still open), '
+                'REAL (floating point is outside this family: no stand-in built).',
+        'technique': 'contracts against shared spec functions + inverse lemmas by induction, z3',
+    },
 }
